@@ -24,4 +24,5 @@ void wb_mp_local_destroy(wb_mp *m, int idx);
 void wb_mp_destroy(wb_mp *m);
 size_t wb_mp_header_bytes(void);
 void wb_local_pool_access(const void *pool);
+void wb_local_pool_reset(const void *pool);
 #endif
